@@ -81,3 +81,30 @@ def elements_of(a):
     whatever it may remember from an earlier call must not reach the harness's own bookkeeping)"""
     tab = [str(e) for e in a.atom_type_elements]
     return [tab[int(t)] for t in a.atom_types]
+
+
+import io as _io
+
+
+class Pipe(_io.TextIOBase):
+    """a text stream as sys.stdin or the read end of a pipe is: readable once, front to back; it cannot seek or tell"""
+    def __init__(self, text):
+        self._s = _io.StringIO(text)
+
+    def readable(self):
+        return True
+
+    def seekable(self):
+        return False
+
+    def read(self, n=-1):
+        return self._s.read(n)
+
+    def readline(self, n=-1):
+        return self._s.readline(n)
+
+    def seek(self, *a):
+        raise _io.UnsupportedOperation("underlying stream is not seekable")
+
+    def tell(self):
+        raise _io.UnsupportedOperation("underlying stream is not seekable")
